@@ -702,7 +702,8 @@ class Enum(DataType):
 
     type = pl.Enum
 
-    categories: pl.Series
+    # part of ``type`` already; a Series cannot be compared or hashed
+    categories: pl.Series = dataclasses.field(compare=False)
 
     def __init__(  # pylint:disable=super-init-not-called
         self,
